@@ -224,7 +224,6 @@ CmdOK(s, cv, c, o) ==
     /\ SamePos(s, o)
     /\ CASE c.name = "UPDATE_HEADER_NOW" -> o.ret = 0
          [] c.name = "SET_UPDATE_HEADER_AUTO" -> o.ret = (IF c.val # 0 THEN 1 ELSE 0)
-         [] c.name \in {"12345678", "-1"} -> o.ret # 0 /\ ErrFlag(o)          \* C09: unknown command identifiers fail with an error
          [] OTHER -> TRUE
 
 CmdPost(s, cv, c, o) ==
